@@ -78,14 +78,58 @@ def in_process(batch, workdir):
   return out
 
 
+PLACEHOLDER_SRC = '''
+import os
+from pymtl3 import *
+from pymtl3.passes.backends.verilog import VerilogPlaceholder, VerilogPlaceholderPass
+LIBS = {libs!r}
+_here = os.getcwd()
+for _l in LIBS:
+  with open( os.path.join( _here, _l + ".v" ), "w" ) as _f:
+    _f.write( "module %s #( parameter p_nbits = 1 )( input logic [p_nbits-1:0] in_, output logic [p_nbits-1:0] out );\\n  assign out = in_;\\nendmodule\\n" % _l )
+with open( os.path.join( _here, "VStage.v" ), "w" ) as _f:
+  _f.write( "module VStage #( parameter nbits = 8 )( input logic clk, input logic reset, input logic [nbits-1:0] in_, output logic [nbits-1:0] out );\\n" )
+  _prev = "in_"
+  for _i, _l in enumerate( LIBS ):
+    _f.write( "  logic [nbits-1:0] t%d;\\n  %s #(nbits) u%d ( .in_(%s), .out(t%d) );\\n" % ( _i, _l, _i, _prev, _i ) )
+    _prev = "t%d" % _i
+  _f.write( "  assign out = %s;\\nendmodule\\n" % _prev )
+
+class VStage( VerilogPlaceholder, Component ):
+  def construct( s, nbits={nbits} ):
+    s.in_ = InPort( nbits )
+    s.out = OutPort( nbits )
+    s.set_metadata( VerilogPlaceholderPass.src_file, os.path.join( _here, "VStage.v" ) )
+    s.set_metadata( VerilogPlaceholderPass.v_libs, [ os.path.join( _here, l + ".v" ) for l in LIBS ] )
+
+class Top( Component ):
+  def construct( s ):
+    s.in_ = InPort( {nbits} )
+    s.out = OutPort( {nbits} )
+    s.stage = VStage( {nbits} )
+    s.stage.in_ //= s.in_
+    s.out //= s.stage.out
+'''
+
+
 def judge_a(case):
   import tempfile, shutil
   wd = tempfile.mkdtemp(prefix="c13_", dir=os.getcwd())
   try:
-    batch = {"designs": case["designs"], "sources": []}
+    batch = {"designs": case["designs"], "sources": case.get("sources", [])}
     runs = []
     for hs in ((0, case["hashseed"]) if case.get("light") else (0, 1, case["hashseed"])):
-      runs.append((f"subprocess PYTHONHASHSEED={hs}", run_worker(batch, wd, hs)["ir"]))
+      r = run_worker(batch, wd, hs)
+      if batch["sources"]:
+        # source-level designs (black-box placeholders with library files): compared between the fresh processes only
+        if runs and r["src"] != runs[0][2]:
+          k = [i for i, (a, b) in enumerate(zip(runs[0][2], r["src"])) if a != b][0]
+          return ("nondeterministic:verilog", f"source design {k} ({batch['sources'][k].get('what', '')}): {runs[0][0]} -> "
+                                              f"{runs[0][2][k][0][:16]}, subprocess PYTHONHASHSEED={hs} -> {r['src'][k][0][:16]}")
+        if any(x[0].startswith("rejected") for x in r["src"]):
+          raise AssertionError(f"harness: placeholder design rejected: {r['src']}")
+      runs.append((f"subprocess PYTHONHASHSEED={hs}", r["ir"], r["src"]))
+    runs = [(a, b) for a, b, _ in runs]
     runs.append(("in-process #1", in_process(batch, wd)))
     if not case.get("light"): runs.append(("in-process #2", in_process(batch, wd)))
     base_name, base = runs[0]
@@ -344,7 +388,14 @@ def cases_a(draw, n, light=False):
   designs = [draw(rtl_gen.designs(translatable=True, wide=False, max_steps=4, min_depth=draw(st.sampled_from([0, 1, 1, 2])),
                                   child_bias=2, ifcs=draw(st.booleans()), struct_bias=draw(st.sampled_from([0, 1, 2])))) for _ in range(n)]
   designs.append(draw(sibling_struct_design()))
-  return {"kind": "A", "designs": designs, "hashseed": draw(st.integers(2, 2 ** 31 - 1)), "light": light}
+  sources = []
+  if draw(st.integers(0, 2)) == 0:
+    # a black-box Verilog placeholder that needs several library files
+    names = draw(st.lists(st.sampled_from(["vc_regs", "vc_muxes", "vc_arith", "vc_gates", "vc_misc", "vc_queues", "vc_mem", "vc_trace"]),
+                          min_size=2, max_size=6, unique=True))
+    sources.append({"src": PLACEHOLDER_SRC.format(libs=names, nbits=draw(st.sampled_from([1, 8, 32]))), "placeholder": True,
+                    "what": f"placeholder with v_libs {names}"})
+  return {"kind": "A", "designs": designs, "sources": sources, "hashseed": draw(st.integers(2, 2 ** 31 - 1)), "light": light}
 
 
 def size_of(design):
@@ -366,6 +417,7 @@ def run_shard(ctx):
       return
     ctx.count(len(case["designs"]))
     ctx.label("determinism_designs", len(case["designs"]))
+    if case.get("sources"): ctx.label("placeholder_with_library_files")
     v = judge_a(case)
     if v is None:
       for d in case["designs"]:
